@@ -312,6 +312,7 @@ func (ex *Exec) enterLoop(fr *Frame, lp *loopRec, reach string, st *State) (stri
 	fullHavoc := map[string]bool{}
 	freshOnly := map[string]bool{} // variant writes go to objects allocated inside the loop only
 	sinceFnEntry := map[string]bool{} // ... or, for these components, to objects allocated since the function was entered
+	iterSafe := map[cellKey]bool{}    // map iterators whose map is provably not written by the body
 	pointRefs := map[string][]string{}
 	if len(compsWritten) > 0 {
 		d2 := ex.cloneForTrial()
@@ -337,12 +338,22 @@ func (ex *Exec) enterLoop(fr *Frame, lp *loopRec, reach string, st *State) (stri
 		if sp := ex.eng.specs.loopSpec(shortFn(fr.fn), lp.ordinal); sp != nil {
 			for _, cl := range sp.Invariants {
 				func() {
-					defer func() { recover() }() // a clause that cannot be evaluated here is simply not used
+					defer func() {
+						if r := recover(); r != nil && os.Getenv("GOVC_DEBUG") != "" {
+							fmt.Fprintf(os.Stderr, "  invariant not usable in discovery: %s: %v\n", trunc(cl.Text, 60), r)
+						}
+					}() // a clause that cannot be evaluated here is simply not used
 					d2.sc.assert(mkImp(reach, d2.evalLoopClause(f2, s2, cl, lp)))
 				}()
 			}
 		}
 		allocAtEntry := ex.comp(st, compAlloc, sArr(sInt, sBool))
+		// semantic freshness proofs are attempted only for loops that carry annotated
+		// invariants (without them they do not succeed), and only a few times per loop
+		semBudget := 0
+		if sp := ex.eng.specs.loopSpec(shortFn(fr.fn), lp.ordinal); sp != nil && len(sp.Invariants) > 0 {
+			semBudget = 8
+		}
 		d2.runLoopBody(f2, lp, reach, s2)
 		memo := map[string]bool{}
 		for _, w := range d2.wlog.recs {
@@ -356,7 +367,11 @@ func (ex *Exec) enterLoop(fr *Frame, lp *loopRec, reach string, st *State) (stri
 					fullHavoc[w.comp] = true
 					freshOnly[w.comp] = true
 				}
-				if !d2.isFreshRefTerm(w.ref, n0, 0) && freshOnly[w.comp] && d2.quickProve(mkImp(reach, mkNot(mkSelect(allocAtEntry, w.ref)))) {
+				trySem := !d2.isFreshRefTerm(w.ref, n0, 0) && freshOnly[w.comp] && semBudget > 0
+				if trySem {
+					semBudget--
+				}
+				if trySem && d2.quickProveT(mkImp(mkAnd(reach, w.reach), mkNot(mkSelect(allocAtEntry, w.ref))), 3) {
 					// not syntactically, but provably (with the invariants) an object
 					// that did not exist when the loop was entered
 					continue
@@ -364,7 +379,7 @@ func (ex *Exec) enterLoop(fr *Frame, lp *loopRec, reach string, st *State) (stri
 				if os.Getenv("GOVC_DEBUG") != "" {
 					fmt.Fprintf(os.Stderr, "  semantic freshness of %s at %s: entryAlloc=%q\n", w.comp, w.ref, fr.entryAlloc)
 				}
-				if !d2.isFreshRefTerm(w.ref, n0, 0) && freshOnly[w.comp] && fr.entryAlloc != "" && d2.quickProve(mkImp(reach, mkNot(mkSelect(fr.entryAlloc, w.ref)))) {
+				if trySem && fr.entryAlloc != "" && d2.quickProveT(mkImp(mkAnd(reach, w.reach), mkNot(mkSelect(fr.entryAlloc, w.ref))), 3) {
 					// ... or at least one that did not exist when the function was entered:
 					// the weaker frame "objects that existed at function entry keep their contents"
 					sinceFnEntry[w.comp] = true
@@ -388,6 +403,38 @@ func (ex *Exec) enterLoop(fr *Frame, lp *loopRec, reach string, st *State) (stri
 			if !dup {
 				pointRefs[w.comp] = append(pointRefs[w.comp], ref)
 			}
+		}
+		// map iterators of this loop: is every map written by the body provably a
+		// different object than the iterated one? (then the iteration visits every key)
+		for _, ck := range cells {
+			if t, isHidden := ex.hiddenCells[ck]; !isHidden || t != nil {
+				continue
+			}
+			var iterated *iterState
+			for _, v := range fr.regs {
+				if v.It != nil && v.It.posCell == ck {
+					iterated = v.It
+				}
+			}
+			if iterated == nil {
+				continue
+			}
+			safe := true
+			seenRef := map[string]bool{}
+			for _, w := range d2.wlog.recs {
+				if w.comp != compMdom(iterated.coll.T) || seenRef[w.ref] {
+					continue
+				}
+				seenRef[w.ref] = true
+				if w.ref == "*" || !d2.quickProveT(mkImp(mkAnd(reach, w.reach), mkNot(mkEq(w.ref, iterated.coll.term()))), 5) {
+					if os.Getenv("GOVC_DEBUG") != "" {
+						fmt.Fprintf(os.Stderr, "  map iteration over %s: write at %s not shown to be another map\n", iterated.coll.term(), trunc(d2.sc.expandDefs(w.ref, n0), 200))
+					}
+					safe = false
+					break
+				}
+			}
+			iterSafe[ck] = safe
 		}
 		// make sure sorts of components first seen in the trial are known
 		for c := range compsWritten {
@@ -492,7 +539,10 @@ func (ex *Exec) enterLoop(fr *Frame, lp *loopRec, reach string, st *State) (stri
 				if iterated != nil && c != compMdom(iterated.coll.T) {
 					continue
 				}
-				other := iterated != nil && !fullHavoc[c] && len(pointRefs[c]) > 0
+				// writes at loop-invariant references: each provably another object;
+				// writes at varying references: only to objects allocated during the loop
+				// (or since function entry), while the iterated map existed before
+				other := iterated != nil && (!fullHavoc[c] || freshOnly[c])
 				if other {
 					for _, r := range pointRefs[c] {
 						if !ex.quickProve(mkImp(reach, mkNot(mkEq(r, iterated.coll.term())))) {
@@ -500,7 +550,16 @@ func (ex *Exec) enterLoop(fr *Frame, lp *loopRec, reach string, st *State) (stri
 						}
 					}
 				}
-				if !other {
+				if other && fullHavoc[c] {
+					a0 := ex.comp(st, compAlloc, sArr(sInt, sBool))
+					if sinceFnEntry[c] {
+						a0 = fr.entryAlloc
+					}
+					if !ex.quickProve(mkImp(reach, mkSelect(a0, iterated.coll.term()))) {
+						other = false
+					}
+				}
+				if !other && !iterSafe[ck] {
 					ex.mapIterModified[ck] = true
 				}
 			}
@@ -768,10 +827,14 @@ func rootOfComp(c string) string {
 
 // quickProve decides a small side query synchronously (z3-new, 2 s).
 func (ex *Exec) quickProve(goal string) bool {
+	return ex.quickProveT(goal, 2)
+}
+
+func (ex *Exec) quickProveT(goal string, limitS int) bool {
 	lines := append(prelude("ALL"), ex.sc.lines...)
 	lines = append(lines, "(assert (not "+goal+"))", "(check-sat)")
 	file := writeQuery("houdini", lines)
-	st, _, _ := runSolver(solvers[0], file, 2)
+	st, _, _ := runSolver(solvers[0], file, limitS)
 	if !keepScratch {
 		removeFile(file)
 	}
